@@ -12,9 +12,13 @@
 #include "rkcommon/common.h"
 #include "rkcommon/os/FileName.h"
 #include "rkcommon/utility/ArgumentList.h"
+#ifndef C18_PUBLIC_ONLY
 #define private public   // reach PseudoURL::params (std headers and common.h are already included)
 #include "rkcommon/utility/PseudoURL.h"
 #undef private
+#else
+#include "rkcommon/utility/PseudoURL.h"   // public-interface fallback: params are not observed directly
+#endif
 #include "rkcommon/utility/StringManip.h"
 
 using namespace rkcommon;
@@ -79,8 +83,13 @@ int main()
       utility::PseudoURL u(uh(t[1]));
       const utility::PseudoURL &p = u;
       o << hx(u.getType()) << " " << hx(u.getFileName()) << " ";
+#ifndef C18_PUBLIC_ONLY
       if (p.params.empty()) o << "[]";
       for (size_t i = 0; i < p.params.size(); ++i) o << (i ? "," : "") << hx(p.params[i].first) << "=" << hx(p.params[i].second);
+#else
+      (void)p;
+      o << "?";
+#endif
       for (size_t i = 2; i < t.size(); ++i) {
         o << " " << (u.hasParam(uh(t[i])) ? 1 : 0) << ":";
         try { o << hx(u.getValue(uh(t[i]))); } catch (const std::runtime_error &) { o << "throw"; }
